@@ -84,6 +84,12 @@ def inv_EFloatContext(k):
     return ef2_ctx_inv(k)
 
 
+def grid_ok(exp, c, n):
+    """c * 2^exp has no nonzero digit at or below position n (spec.real.on_grid on scalars)"""
+    sh = n + 1 - exp
+    return True if sh <= 0 else fmod(c, pow2(sh)) == 0
+
+
 def ef2_fmt_maxval_ok(f):
     """EFloatFormat: the derived bounds are symmetric and the largest value is a member of the derived
     (p, emin) format; established by EFloatFormat.__init__ (contract EFloatFormat___init__)"""
@@ -91,7 +97,7 @@ def ef2_fmt_maxval_ok(f):
     pm = b.pos_maxval
     nm = b.neg_maxval
     return (nm._s and not pm._s and nm._exp == pm._exp and nm._c == pm._c
-            and (pm._c == 0 or (fits_p(pm._c, b.pmax) and on_grid(pm, b.emin - b.pmax) and f._has_nonzero)))
+            and (pm._c == 0 or (fits_p(pm._c, b.pmax) and grid_ok(pm._exp, pm._c, b.emin - b.pmax) and f._has_nonzero)))
 
 
 def ef2_ctx_inv(k):
@@ -120,7 +126,7 @@ def ef2_fin_member(k, v):
     f = k._fmt._mpb_fmt
     vr = v._real
     return ite(vr._c == 0, not (vr._s and k.nan_kind.name == 'NEG_ZERO'),
-               fits_p(vr._c, f.pmax) and on_grid(vr, f.emin - f.pmax)
+               fits_p(vr._c, f.pmax) and grid_ok(vr._exp, vr._c, f.emin - f.pmax)
                and not mag_lt_ec(f.pos_maxval._exp, f.pos_maxval._c, vr._exp, vr._c))
 
 
@@ -135,7 +141,7 @@ def ef2_member_signed(k, v, s):
     vr = v._real
     return ite(v._isnan, k.nan_kind.name != 'NONE', ite(v._isinf, k.enable_inf,
                ite(vr._c == 0, not (s and k.nan_kind.name == 'NEG_ZERO'),
-                   fits_p(vr._c, f.pmax) and on_grid(vr, f.emin - f.pmax)
+                   fits_p(vr._c, f.pmax) and grid_ok(vr._exp, vr._c, f.emin - f.pmax)
                    and not mag_lt_ec(f.pos_maxval._exp, f.pos_maxval._c, vr._exp, vr._c))))
 
 
@@ -180,3 +186,177 @@ def ef2_fixup_post(self, x, r):
         'keep': implies(keep, same_float(r, x)),
         'flags': r._real._flags._flags == x._real._flags._flags,
     }
+
+
+# ---------------------------------------------------------------------------
+# EFloatContext.round / round_at: K1..K5 for the EFloat family
+
+def ef2_subst_ok(k):
+    """the configured substitutes are members of the format (the infinity substitute under either sign);
+    the constructor is obliged to establish this (EFloatContext___init__#post[nan_value_member / inf_value_member])"""
+    nk = k.nan_kind.name
+    return (((ef2_member(k, k.nan_value)) if (k.nan_value is not None and nk == 'NONE') else True)
+            and ((ef2_member_signed(k, k.inf_value, False) and ef2_member_signed(k, k.inf_value, True))
+                 if (k.inf_value is not None and not k.enable_inf) else True))
+
+
+def ef2_R(self, x, n):
+    f = self._fmt._mpb_fmt
+    nmin = f.emin - f.pmax
+    nn = nmin if n is None else max2(n, nmin)
+    return rnd_at(op_real(x), f.pmax, round_nstar(op_real(x), f.pmax, nn), self.rm)
+
+
+def ef2_post(self, x, n, exact, r):
+    """
+    post of EFloatContext.round (n = None) / round_at: p = nbits - es digits, nothing below nmin = emin - p,
+    largest value M = the format's maxval (EFloatFormat___init__ shows it is the largest finite code of the
+    nan kind); what the format lacks is substituted by the K5 table.
+    """
+    nk = self.nan_kind.name
+    f = self._fmt._mpb_fmt
+    M = f.pos_maxval
+    nan = op_nan(x)
+    inf = op_inf(x)
+    xr = op_real(x)
+    fin = not nan and not inf
+    nz = fin and xr._c != 0
+    s = xr._s
+    R = ef2_R(self, x, n)
+    ovf = nz and mag_lt_ec(M._exp, M._c, R[0], R[1])
+    ok = nz and not ovf
+    om = self.overflow.name
+    toinf = ovf_to_inf(self.rm, s, True, True)
+    arm_inf = ovf and om == 'OVERFLOW' and toinf
+    arm_max = ovf and (om == 'SATURATE' or (om == 'OVERFLOW' and not toinf))
+    want_inf = inf or arm_inf          # an infinity of sign s is due
+    row_nan = nan and nk == 'NONE'
+    row_inf = want_inf and not self.enable_inf
+    return {
+        'ctx': same_obj(r._ctx, self),
+        'p_is': f.pmax == self.nbits - self.es,
+        'emin_is': f.emin == ef2_emin(self.es, self.eoffset),
+        # K5 NaN
+        'nan_kept': implies(nan and nk != 'NONE', is_nan_result(r)),
+        'nan_subst': implies(row_nan, same_real(r._real, self.nan_value._real) and r._isnan == self.nan_value._isnan
+                             and r._isinf == self.nan_value._isinf) if self.nan_value is not None else True,
+        'nan_to_inf': implies(row_nan and self.enable_inf, r._isinf and not r._isnan) if self.nan_value is None else True,
+        'nan_to_max': implies(row_nan and not self.enable_inf, fl_finite(r) and r._real._exp == M._exp and r._real._c == M._c)
+                      if self.nan_value is None else True,
+        # K5 / K4 infinity: an infinite operand, or an overflow the rounding mode sends to infinity
+        'inf_kept': implies(want_inf and self.enable_inf, is_inf_result(r, s)),
+        'inf_subst': implies(row_inf, ef2_subst_is(r, self.inf_value, s)) if self.inf_value is not None else True,
+        'inf_to_nan': implies(row_inf and nk != 'NONE', is_nan_result(r)) if self.inf_value is None else True,
+        'inf_to_max': implies(row_inf and nk == 'NONE', ef2_maxval_is(r, self, s)) if self.inf_value is None else True,
+        # K2 zero keeps its sign (+0 where the -0 word is the NaN), no flags
+        'zero': implies(fin and xr._c == 0, fl_finite(r) and r._real._c == 0
+                        and r._real._s == (s and nk != 'NEG_ZERO') and flags_clear(r._real)),
+        # K2/K3 within range: the correctly rounded value, truthful flags
+        'finite': implies(ok, fl_finite(r)),
+        'sign': implies(ok, r._real._s == (s and (nk != 'NEG_ZERO' or R[1] != 0))),
+        'exp': implies(ok, r._real._exp == R[0]),
+        'c': implies(ok, r._real._c == R[1]),
+        'inexact': implies(ok, r._real._flags.inexact == R[2]),
+        'no_overflow': implies(ok, not r._real._flags.overflow),
+        # K4 beyond range to the largest value
+        'ovf_max': implies(arm_max, fl_finite(r) and r._real._exp == M._exp and r._real._c == M._c
+                           and (r._real._s == s or M._c == 0) and not (r._real._s and M._c == 0 and nk == 'NEG_ZERO')),
+        'ovf_flag_overflow': implies(ovf, r._real._flags.overflow),
+        'ovf_flag_inexact': implies(ovf, r._real._flags.inexact),
+        'special_flags': implies(nan or inf, not r._real._flags.inexact and not r._real._flags.overflow),
+        # K1 member of the format
+        'member_p': implies(ok, bl(r._real._c) <= f.pmax),
+        'member_n': implies(ok, r._real._exp > n) if n is not None else True,
+        'member_nmin': implies(ok, r._real._exp > f.emin - f.pmax),
+        'member_range': implies(ok, not mag_lt_ec(M._exp, M._c, r._real._exp, r._real._c)),
+        'member_nan': implies(r._isnan and not (row_inf and self.inf_value is not None), nk != 'NONE'),
+        'member_inf': implies(r._isinf and not (row_nan and self.nan_value is not None), self.enable_inf),
+        'member_neg_zero': implies(fl_finite(r) and r._real._c == 0 and r._real._s
+                                   and not (row_nan and self.nan_value is not None)
+                                   and not (row_inf and self.inf_value is not None), nk != 'NEG_ZERO'),
+        'member_subst': implies((row_nan and self.nan_value is not None) or (row_inf and self.inf_value is not None),
+                                ef2_member(self, r)),
+    }
+
+
+def ef2_raises(self, x, n, exact):
+    M = self._fmt._mpb_fmt.pos_maxval
+    nz = op_nonzero(x)
+    R = ef2_R(self, x, n)
+    ovf = nz and mag_lt_ec(M._exp, M._c, R[0], R[1])
+    return {
+        # the format always has a value for NaN / infinity / an overflow (K5 table): only `exact` raises
+        'ValueError': nz and exact and (R[2] or ovf),
+        'OverflowError': ovf and not exact and self.overflow.name == 'ASSERT',
+    }
+
+
+# ---------------------------------------------------------------------------
+# constructors of the families with a largest value
+
+def mpb2_member(pmax, emin, pos, neg, enable_nan, enable_inf, v, s):
+    """Float v, carrying the sign s, is a member of MPBFloatFormat(pmax, emin, pos, neg, enable_nan, enable_inf)"""
+    vr = v._real
+    return ite(v._isnan, enable_nan, ite(v._isinf, enable_inf,
+               vr._c == 0 or (fits_p(vr._c, pmax) and grid_ok(vr._exp, vr._c, emin - pmax)
+                              and not mag_lt_ec(ite(s, neg._exp, pos._exp), ite(s, neg._c, pos._c), vr._exp, vr._c))))
+
+
+def mpb2_subst_bad(pmax, emin, maxval, neg_maxval, enable_nan, enable_inf, nan_value, inf_value):
+    """a configured substitute is not a member (only asked when the format is valid)"""
+    if pmax < 1:
+        return False
+    nexp = maxval._exp if neg_maxval is None else neg_maxval._exp
+    nc = maxval._c if neg_maxval is None else neg_maxval._c
+    bad_nan = False
+    if nan_value is not None:
+        vr = nan_value._real
+        bad_nan = not enable_nan and not ite(nan_value._isnan, enable_nan, ite(nan_value._isinf, enable_inf,
+                      vr._c == 0 or (fits_p(vr._c, pmax) and grid_ok(vr._exp, vr._c, emin - pmax)
+                                     and not mag_lt_ec(ite(vr._s, nexp, maxval._exp), ite(vr._s, nc, maxval._c), vr._exp, vr._c))))
+    bad_inf = False
+    if inf_value is not None:
+        wr = inf_value._real
+        bad_inf = not enable_inf and not ite(inf_value._isnan, enable_nan, ite(inf_value._isinf, enable_inf,
+                      wr._c == 0 or (fits_p(wr._c, pmax) and grid_ok(wr._exp, wr._c, emin - pmax)
+                                     and not mag_lt_ec(maxval._exp, maxval._c, wr._exp, wr._c)
+                                     and not mag_lt_ec(nexp, nc, wr._exp, wr._c))))
+    return bad_nan or bad_inf
+
+
+def widened2(pmax, nmin, k, result):
+    """round_params: (pmax + k, nmin - k) for k random bits, (None, None) when all bits are random"""
+    p, n = result
+    return {
+        'all_bits': implies(k is None, p is None and n is None),
+        'p': (p is not None and p == pmax + k) if k is not None else True,
+        'n': (n is not None and n == nmin - k) if k is not None else True,
+    }
+
+
+def ef2_ctor_subst_bad(es, nbits, enable_inf, nk, eoffset, nan_value, inf_value):
+    """EFloatContext.__init__: a configured substitute is not a member of the format being constructed
+    (largest value = the largest finite code)"""
+    if not (nbits >= 1 and es >= 0 and es < nbits):
+        return False
+    p = nbits - es
+    m = p - 1
+    emin = ef2_emin(es, eoffset)
+    e = ef2_max_e(es, m, enable_inf, nk)
+    mb = ef2_max_mb(es, m, enable_inf, nk)
+    mexp = code_exp(e, emin - p + 1)
+    mc = code_c(e, mb, m)
+    bad_nan = False
+    if nan_value is not None and nk == 'NONE':
+        vr = nan_value._real
+        bad_nan = not ite(nan_value._isnan, False, ite(nan_value._isinf, enable_inf,
+                          vr._c == 0 or (fits_p(vr._c, p) and grid_ok(vr._exp, vr._c, emin - p)
+                                         and not mag_lt_ec(mexp, mc, vr._exp, vr._c))))
+    bad_inf = False
+    if inf_value is not None and not enable_inf:
+        wr = inf_value._real
+        bad_inf = not ite(inf_value._isnan, nk != 'NONE', ite(inf_value._isinf, False,
+                          ite(wr._c == 0, nk != 'NEG_ZERO',
+                              fits_p(wr._c, p) and grid_ok(wr._exp, wr._c, emin - p)
+                              and not mag_lt_ec(mexp, mc, wr._exp, wr._c))))
+    return bad_nan or bad_inf
